@@ -11,6 +11,11 @@ NOTE = ("Trusted base: go/types + go/ssa (x/tools v0.29.0) as a faithful model o
 
 # id -> (built?, technique, level text, design_ref, reason-if-not-built)
 P = {
+ "C03": (True, "connection-effect (who-may-touch) rule over all uses of the connection value, must-pass 'wait out the deadline' on every exit, interval evaluation of the deadline, guard dominance on transport thresholds (go/ssa)",
+         "Decides for every input and pacing: before a positive match no code path in the handler or in any WrapConnection implementation (computed from the interface) can write to, close, re-deadline or hand away the client connection — its only uses are observers, SetDeadline, Read, drain into io.Discard and the offer to WrapConnection; the wrapped connection is only returned with a nil error or, for obfs4, handed to the handshake after the mark matched; "
+         "every return after the deadline was set is preceded on all paths by a drain to the deadline, a sleep until it, a read error or Proxy; the deadline precedes the first read and is now+d with d in [5 s,10 s) by interval evaluation; obfs4 says not-transport only at 8192 bytes; the loop removes a transport only on ErrNotTransport. "
+         "Wall-clock behaviour, the vendored obfs4 handshake after a mark match and kernel-level ACKs are not decided.",
+         "4/C03"),
  "C05": (True, "must-pass / reachability path rules with nil-fact path sensitivity on go/ssa (io.Reader contract, defer registration, pairing)",
          "Decides on every path of halfPipe/Proxy: data returned with a read error is written before the loop exits; the written slice is the read prefix and counters use the write count; the loop continues only after a full, error-free write; "
          "WaitGroup release and close of both connections are deferred before the first return and the closer always reaches Close; wg.Add matches the goroutines started; session gauge paired; covert and client connections closed by defers. "
